@@ -4,6 +4,7 @@ import Driver.Wire
 import Driver.Conn
 import Driver.C13
 import Driver.C14
+import Driver.C12
 open Driver
 
 def dispatch (line : String) : Verdict :=
@@ -12,6 +13,7 @@ def dispatch (line : String) : Verdict :=
   match l with
   | "C06" :: args => c06 args r
   | "C07" :: args => c07 args r
+  | "C12" :: args => c12 args r
   | "C13" :: args => c13 args r
   | "C14" :: args => c14 args r
   | _ => vBad line
